@@ -98,7 +98,7 @@ func c07Finding(name string, frame []byte, ref string, choices []int, maxZero in
 		desc = desc[:300] + " ... " + desc[len(desc)-250:]
 	}
 	if pat != nil {
-		kind = fmt.Sprintf("pattern(chunk=%d,zero-reads-before-each=%d)", pat.Chunk, pat.ZeroBefore)
+		kind = fmt.Sprintf("pattern(first segment=%d,chunk=%d,zero-reads-before-each=%d)", pat.First, pat.Chunk, pat.ZeroBefore)
 		desc = kind + ": " + desc
 	}
 	return &core.Finding{
@@ -154,6 +154,14 @@ func c07Frames(x *core.Ctx) []CFrame {
 // slow link): chunk size x zero-length reads before each chunk.
 func c07Patterns(n int) []env.Pattern {
 	ps := []env.Pattern{{Chunk: 1, ZeroBefore: 1}, {Chunk: 1, ZeroBefore: 3}, {Chunk: 7, ZeroBefore: 1}, {Chunk: 0, ZeroBefore: 99}, {Chunk: 0, ZeroBefore: 100}, {Chunk: 0, ZeroBefore: 101}}
+	// the first byte (the first two) alone, the rest as it comes
+	ps = append(ps, env.Pattern{First: 1}, env.Pattern{First: 2}, env.Pattern{First: 1, Chunk: 2})
+	if n > 1000 {
+		// segment sizes of real links and of buffers that grow in steps
+		for _, c := range []int{512, 600, 1000, 1024, 1460, 1803, 2048} {
+			ps = append(ps, env.Pattern{Chunk: c}, env.Pattern{Chunk: c, First: c/2 + 40})
+		}
+	}
 	if n > 4000 {
 		ps = append(ps, env.Pattern{Chunk: 512, ZeroBefore: 1}, env.Pattern{Chunk: 4096, ZeroBefore: 1}, env.Pattern{Chunk: 4096, ZeroBefore: 2}, env.Pattern{Chunk: 65536, ZeroBefore: 1})
 	}
@@ -196,7 +204,7 @@ func runC07(x *core.Ctx) {
 		// exactly the frame consumed, also when frame end and what follows
 		// arrive together or in odd segments
 		if fi < nCorpus {
-			for _, pat := range []*env.Pattern{nil, {Chunk: 4096}, {Chunk: 65536}, {Chunk: 3}} {
+			for _, pat := range []*env.Pattern{nil, {Chunk: 4096}, {Chunk: 65536}, {Chunk: 3}, {First: 1}, {First: 2}, {First: 3}, {First: 1, Chunk: 4096}} {
 				if pat != nil && pat.Chunk == 3 && len(f.B) > 20000 {
 					continue
 				}
@@ -236,7 +244,7 @@ func runC07(x *core.Ctx) {
 			bound, maxZero, stratum = -1, 2, "complete<=10B"
 		case len(f.B) > 100_000:
 			bound, maxZero, stratum = 3, 1, "bounded3.huge.coarse"
-		case len(f.B) > 4000:
+		case len(f.B) > 4000 || (len(f.B) > 400 && !x.Thorough()):
 			bound, maxZero, stratum = 1, 1, "bounded1.big"
 		case x.Thorough() && len(f.B) <= 24:
 			bound, maxZero, stratum = 4, 2, "bounded4<=24B"
@@ -294,7 +302,7 @@ func c07Tail(x *core.Ctx, f CFrame, ref string, pat *env.Pattern) {
 	if fd := run(); fd != nil {
 		params := map[string]any{"name": f.Name, "tail": true}
 		if pat != nil {
-			params["chunk"] = pat.Chunk
+			params["chunk"], params["first"] = pat.Chunk, pat.First
 		}
 		x.Report(fd, func() core.Case { return core.Case{Harness: "c07.tail", Frame: hexOf(f.B), Params: params} }, run)
 	}
@@ -315,13 +323,13 @@ func c07Single(x *core.Ctx, f CFrame, ref string, k env.Kind, pat *env.Pattern, 
 	x.R.Transitions += int64(rd.Calls)
 	tag := k.String()
 	if pat != nil {
-		tag += fmt.Sprintf("/p%d.%d", pat.Chunk, pat.ZeroBefore)
+		tag += fmt.Sprintf("/p%d.%d.%d", pat.Chunk, pat.ZeroBefore, pat.First)
 	}
 	x.Distinct(core.HashInts(f.Name+"/"+tag, nil))
 	if out != ref {
 		params := map[string]any{"max_zero": 0, "name": f.Name, "reader": int(k)}
 		if pat != nil {
-			params["chunk"], params["zero_before"] = pat.Chunk, pat.ZeroBefore
+			params["chunk"], params["zero_before"], params["first"] = pat.Chunk, pat.ZeroBefore, pat.First
 		}
 		x.Report(c07Finding(f.Name, f.B, ref, nil, 0, k, pat), func() core.Case {
 			return core.Case{Harness: "c07", Frame: hexOf(f.B), Params: params}
@@ -380,7 +388,7 @@ func replayC07(c core.Case) *core.Finding {
 			}
 			var pat *env.Pattern
 			if _, ok := c.Params["chunk"]; ok {
-				pat = &env.Pattern{Chunk: paramInt(c.Params, "chunk")}
+				pat = &env.Pattern{Chunk: paramInt(c.Params, "chunk"), First: paramInt(c.Params, "first")}
 			}
 			ref, _ := c07Exec(f.B, nil, 0, false, env.KRaw, nil)
 			return c07TailRun(f, ref, pat)
@@ -391,7 +399,7 @@ func replayC07(c core.Case) *core.Finding {
 	ref, _ := c07Exec(frame, nil, 0, false, env.KRaw, nil)
 	var pat *env.Pattern
 	if _, ok := c.Params["chunk"]; ok {
-		pat = &env.Pattern{Chunk: paramInt(c.Params, "chunk"), ZeroBefore: paramInt(c.Params, "zero_before")}
+		pat = &env.Pattern{Chunk: paramInt(c.Params, "chunk"), ZeroBefore: paramInt(c.Params, "zero_before"), First: paramInt(c.Params, "first")}
 	}
 	return c07Finding(paramStr(c.Params, "name"), frame, ref, c.Choices, paramInt(c.Params, "max_zero"), env.Kind(paramInt(c.Params, "reader")), pat)
 }
